@@ -193,7 +193,20 @@ func (w *rWorld) apply(op rOp) (ret string, applicable bool) {
 						w.held = append(w.held, heldPtr{ptr: val, want: want})
 					}
 				} else {
-					setField(o.res, op.F, d, op.V, w.km, w.tb)
+					if cur, isList := o.res.Get(op.F).([]string); isList && d.Kind == "rel" && !d.To1 && w.km.Shift%2 == 0 {
+						// lists are handled the way callers often do: an empty one is a slice with room to
+						// grow, and ids are appended to the empty list the resource hands out
+						switch {
+						case len(op.V.IDs) == 0:
+							o.res.Set(op.F, make([]string, 0, 8))
+						case len(cur) == 0:
+							o.res.Set(op.F, append(cur, op.V.IDs...))
+						default:
+							setField(o.res, op.F, d, op.V, w.km, w.tb)
+						}
+					} else {
+						setField(o.res, op.F, d, op.V, w.km, w.tb)
+					}
 				}
 			}
 		case "SetID":
@@ -571,7 +584,7 @@ func resourceMain(args []string) {
 	}
 	w := newEvWriter(*out, 40000)
 	variant := func() cVariant {
-		v := cVariant{Shift: rng.Intn(len(nonBool)), Table: rng.Intn(3), NoFrom: rng.Intn(3) == 0, Built: rng.Intn(4) == 0, NamedID: rng.Intn(4) == 0, Decoy: rng.Intn(4) == 0}
+		v := cVariant{Shift: rng.Intn(len(nonBool)), Table: []int{0, 1, 2, 7}[rng.Intn(4)], NoFrom: rng.Intn(3) == 0, Built: rng.Intn(4) == 0, NamedID: rng.Intn(4) == 0, Decoy: rng.Intn(4) == 0}
 		if rng.Intn(2) == 0 {
 			v.Shift = 0 // the byte-string kinds sit at shift 0
 		}
@@ -609,6 +622,21 @@ func resourceMain(args []string) {
 					continue
 				}
 				h2 := append(append([]rOp{}, h...), op)
+				if op.Op == "Copy" && op.H >= 1 && op.H <= len(ev.Post) {
+					// a to-many list that is empty when the copy is taken grows on both sides afterwards,
+					// each side appending to the list it was handed out: first the source, then the copy
+					src := ev.Post[op.H-1]
+					for _, f := range sortedKeys(src.Fields) {
+						if d := src.Fields[f]; d.Kind == "rel" && !d.To1 && len(src.Vals[f].IDs) == 0 {
+							grow := rOp{Op: "Set", H: op.H, F: f, V: jVal{IDs: []string{"a"}}, Fields: defMap{}}
+							h3 := append(append([]rOp{}, h2...), grow)
+							if _, ok := emit(rCase{Fam: "resource", Kind: "step", Hist: h3,
+								Op: rOp{Op: "Set", H: len(ev.Post), F: f, V: jVal{IDs: []string{"b", "a"}}, Fields: defMap{}}, Var: v, Seed: *seed}); ok {
+								stt.class("after-making:both-sides-grow")
+							}
+						}
+					}
+				}
 				seen := map[string]bool{}
 				for _, op2 := range alpha {
 					switch op2.Op {
